@@ -336,6 +336,13 @@ func runC03(c *Ctx) {
 	c.checkBrokerLoopProvenance()
 	c.prefix = ""
 
+	// ---------- O-9 the load figure the pools are ordered by is the one the proxy reported ----------
+	// (C12's verbatim obligation on the decoded client count: a decoder that rounds or clamps it turns
+	// different loads into ties, and the heap then serves the earlier arrival instead of the less loaded proxy)
+	c.prefix = "O-9/C12:"
+	c.verbatimResult("O-5 fields travel verbatim", "common/messages", "DecodeProxyPollRequestWithRelayPrefix", 3, "Clients")
+	c.prefix = ""
+
 	// ---------- O-6 the legacy client format carries the NAT type too ----------
 	c.checkLegacyShim("O-6 legacy format hands the NAT header to the same handler")
 
